@@ -64,7 +64,7 @@ claim("C01",
       "(5) character count: in Encoder_encode the count written by appendLengthInfo equals the payload that follows (numericBits(n), alnumBits(n), 8*n bits) — proved as a call-site assertion over the proved payload sizes of appendBytes; "
       "(6) terminateBits (thorough tier): at most four terminator zeros, zero padding to the byte boundary, then the pad codewords 11101100/00010001 alternately up to exactly 8*numDataBytes bits, the data prefix unchanged, an error exactly when the data does not fit; "
       "(7) generateECBytes hands the QR-field Reed-Solomon encoder exactly the block's data bytes and returns the parity the encoder wrote behind them (composed with the C04 Encode contract: data unchanged, parity symbols are field elements); "
-      "(8) version choice (C13), format/version bits of the encoder (C07) and format/version word tolerance of the decoder (C05). "
+      "(8) mode table: the mode indicators and the character-count widths of the three version classes equal the standard (lemma modeTable), Mode.GetCharacterCountBits selects the class by the boundaries 9|10 and 26|27, ModeForBits maps exactly the defined indicators; (9) version choice (C13), format/version bits of the encoder (C07) and format/version word tolerance of the decoder (C05). "
       "Not decided: decodeNumericSegment/decodeAlphanumericSegment/decodeByteSegment against the stream, interleaveWithECBytes <-> DataBlock_GetDataBlocks, embedDataBits <-> ReadCodewords, extractPureBits/moduleSize, ECI handling, the end-to-end round trip.",
       "Encoder_encode is checked for its call-site assertion only (its postconditions stay a trusted summary); x/text encoders are stubs (arbitrary bytes, length <= 4*len+64); hint maps unmodelled; appendKanjiBytes/decodeKanjiSegment in 64-bit vectors, the other segment functions over mathematical integers.")
 claim("C15",
@@ -132,10 +132,15 @@ claim("C05",
 claim("C19",
       "Over the reals: SquareToQuadrilateral is proved to send (0,0),(1,0),(0,1) to the given points and to compute the perspective coefficients as the solution of the 2x2 system "
       "(the (1,1) corner then follows from the polynomial identity corner11, proved separately; the final cancellation by D != 0 is on paper); buildAdjoint is proved to satisfy adj(M).M == det(M).I "
-      "(all nine entries); times is proved to be composition in homogeneous coordinates for all points; TransformPoints is proved pointwise. "
-      "GridSampler_checkAndNudgePoints is proved to write only in-image coordinates, to leave the first and last point inside the image on success, to report only NotFoundException, and to modify nothing else. "
-      "BitMatrix.Get (C16) guarantees that nothing outside the image is read. Not decided: SampleGridWithTransform's per-cell statement, QuadrilateralToQuadrilateral as a whole, and the 1e-6 floating-point error bound.",
-      "float64 treated as real arithmetic (no rounding, no NaN/Inf); float->int conversion is truncation for |x| < 1e9.")
+      "(all nine entries); times is proved to be composition in homogeneous coordinates for all points; TransformPoints is proved pointwise (pair i, i+1 of the slice). "
+      "GridSampler_checkAndNudgePoints is proved to write only in-image coordinates, never to move a point whose pixel is inside the image, to leave the first and last point inside the image on success, "
+      "to leave both neighbours of every point it pulled back inside the image (so, by induction on paper from the two ends, the whole leading and trailing run of points up to one pixel outside is pulled "
+      "onto the edge), to report only NotFoundException, and to modify nothing else. "
+      "DefaultGridSampler.SampleGridWithTransform (real products/quotients uninterpreted): for transforms sending every cell centre to a finite point, on success the result is a fresh "
+      "dimensionX x dimensionY matrix in which every cell whose transformed centre (x+0.5, y+0.5) falls on an image pixel carries exactly that pixel; every failure is a NotFoundException with a nil matrix; "
+      "the input image is not modified. BitMatrix.Get (C16) guarantees that nothing outside the image is read. "
+      "Not decided: QuadrilateralToQuadrilateral as a whole, interior points outside the image (read as white when negative, NotFoundException when beyond the right/bottom edge) and the 1e-6 floating-point error bound.",
+      "float64 treated as real arithmetic (no rounding, no NaN/Inf); float->int conversion is truncation for |x| < 1e9; in SampleGridWithTransform real products and quotients are uninterpreted functions (sound abstraction).")
 
 claim("C14",
       "Geometry of the three renderers, for all requested sizes, symbols and non-negative margins: onedWriter_renderResult returns max(width, n+margin) x max(1,height), with "
